@@ -34,6 +34,8 @@ Hypotheses, and where they come from:
 -/
 import TgModel.Lemmas.IdeCheck
 import TgModel.Lemmas.ParserShape
+import TgModel.Lemmas.IdeTotal
+import TgModel.Props.C02Fuel
 
 namespace Tg.C03
 open Tg.Ide Tg.Ide.Handlers
@@ -135,6 +137,47 @@ theorem analysis_total (vfs : List (String × String)) (rootPath : String) (incl
     documentLink_never_panics ws, inlayHint_never_panics h, gotoDefinition_never_panics h,
     references_never_panics h, hover_never_panics h, fun f p t hp' => completion_never_panics h f p t hp'⟩
 
+/-! ### `buildWorkspace` is total -/
+
+/-- parsing a file never fails (`C02.parse_never_panics`: no panic, and `parseFuel` is enough) -/
+theorem parseFile_total (text : String) : ∃ r, parseFile text = .ok r := by
+  obtain ⟨r, hr⟩ := Tg.C02.parse_never_panics text.toList
+  exact ⟨_, by unfold parseFile; rw [hr]⟩
+
+/-- **`buildWorkspace` always returns a workspace**: the parser does not fail, and the fuel of the
+`collect_sources` loop (`16 + Σ (length + 1)` over the virtual file system) is enough — a queue entry
+whose file is already collected costs one unit, a new file at most one entry per character of its
+text (one per `include`), and different file ids read different entries of the file system
+(`Lemmas/IdeTotal.lean`, `IncCount*.lean`) -/
+theorem buildWorkspace_total (vfs : List (String × String)) (rootPath : String) (includeDir : Option String) :
+    ∃ ws, buildWorkspace vfs rootPath includeDir = .ok ws :=
+  buildWorkspace_total_of parseFile_total vfs rootPath includeDir
+
+/-- the indexer runs, and does not panic, for every virtual file system, root path and include
+directory -/
+theorem index_never_panics_all (vfs : List (String × String)) (rootPath : String) (includeDir : Option String) :
+    ∃ ws r, buildWorkspace vfs rootPath includeDir = .ok ws ∧ Index.index ws = .ok r := by
+  obtain ⟨ws, hb⟩ := buildWorkspace_total vfs rootPath includeDir
+  obtain ⟨r, hr⟩ := index_never_panics vfs rootPath includeDir ws hb
+  exact ⟨ws, r, hb, hr⟩
+
+/-- **analysis totality without hypotheses**: for every virtual file system, root path and include
+directory the workspace is built and every request returns -/
+theorem analysis_total_all (vfs : List (String × String)) (rootPath : String) (includeDir : Option String) :
+    ∃ ws, buildWorkspace vfs rootPath includeDir = .ok ws ∧
+    (∃ r, diagnosticsExec (Analysis.new ws) = .ok r) ∧
+    (∀ file, ∃ r, documentSymbolExec (Analysis.new ws) file = .ok r) ∧
+    (∀ file, ∃ r, foldingRangeExec (Analysis.new ws) file = .ok r) ∧
+    (∀ file, ∃ r, documentLinkExec (Analysis.new ws) file = .ok r) ∧
+    (∀ file a b, ∃ r, inlayHintExec (Analysis.new ws) file a b = .ok r) ∧
+    (∀ file pos, ∃ r, gotoDefinitionExec (Analysis.new ws) file pos = .ok r) ∧
+    (∀ file pos, ∃ r, referencesExec (Analysis.new ws) file pos = .ok r) ∧
+    (∀ file pos, ∃ r, hoverExec (Analysis.new ws) file pos = .ok r) ∧
+    (∀ file pos trigger, pos ≤ (ws.tree file).stop →
+      ∃ r, completionExec (Analysis.new ws) file pos trigger = .ok r) := by
+  obtain ⟨ws, hb⟩ := buildWorkspace_total vfs rootPath includeDir
+  exact ⟨ws, hb, analysis_total vfs rootPath includeDir ws hb⟩
+
 /-! ### non-vacuity -/
 
 def isOk {ε α : Type} : Except ε α → Bool
@@ -145,6 +188,11 @@ set_option maxRecDepth 100000 in
 /-- `buildWorkspace` does return a workspace (a root file that includes another file) -/
 example : isOk (buildWorkspace [("/w/a.td", "include \"b.td\"\nclass A;"), ("/w/b.td", "def x;")]
     "/w/a.td" none) = true := by decide +kernel
+
+set_option maxRecDepth 100000 in
+/-- the root path `/` (a path without parent: no directory of its own to search) with an include
+that does not resolve -/
+example : isOk (buildWorkspace [("/", "class R;\ninclude \"x.td\"\n")] "/" none) = true := by decide +kernel
 
 /-- a text with a class with a template argument and a field whose value is a bang operator, a
 comment, a def with a parent class -/
